@@ -16,13 +16,13 @@ LEVEL = 'exploration'
 RULE = ('full product: every k-subset of a 13-observable pool (same-configuration derived observables, nested / every-other / '
         'partly overlapping / disjoint single chains, two replicas, second ensemble, pure and mixed covariance inputs) for '
         'k=2..5 (quick) / 2..8 (thorough) x analysis parameters {default, S=0, tau_exp=3} x correlation {False, True} x every '
-        'admissible smoothing E; all permutations (k<=4) or all <=2-transposition deviations (k>4) of each list; helpers '
+        'admissible smoothing E; all permutations (k<=4), all <=2-transposition deviations (k=5) or all single transpositions (k>=6) of each list; helpers '
         'invert_corr_cov_cholesky / sort_corr / _smooth_eigenvalues / error_band on every list where they apply.  Non-trivial = '
         'the list contains at least two observables with common support')
 ASSUMPTIONS = ['Pearson reference is formed from the fluctuations keyed by configuration number on the common configurations (single-chain pairs)',
                'symmetry is demanded to 4 ulp (the final diag*corr*diag product is not bit-symmetric)']
 EXHAUSTIVE = True
-CHUNK = 4
+CHUNK = 1
 
 PARAMS = [{}, {'S': 0}, {'tau_exp': 3}]
 
@@ -84,8 +84,8 @@ def build(tier, seed):
     cases = []
     for k in range(2, kmax + 1):
         combos = list(itertools.combinations(range(13), k))
-        for i in range(0, len(combos), 20):
-            cases.append({'kind': 'lists', 'lists': [list(c) for c in combos[i:i + 20]]})
+        for i in range(0, len(combos), 6):
+            cases.append({'kind': 'lists', 'lists': [list(c) for c in combos[i:i + 6]]})
     cases.append({'kind': 'helpers'})
     return cases
 
@@ -115,7 +115,7 @@ def perms_for(k):
         p = idx[:]
         p[i], p[j] = p[j], p[i]
         out.append(tuple(p))
-    for (i, j), (m, n) in itertools.combinations(list(itertools.combinations(range(k), 2)), 2):
+    for (i, j), (m, n) in (itertools.combinations(list(itertools.combinations(range(k), 2)), 2) if k <= 5 else []):
         p = idx[:]
         p[i], p[j] = p[j], p[i]
         p[m], p[n] = p[n], p[m]
